@@ -439,6 +439,9 @@ func (sc *modScanner) call(c *ssa.CallCommon, depth int) {
 	sc.keys[allocKey] = true
 	if c.IsInvoke() {
 		cls := typeKey(c.Value.Type()) + "." + c.Method.Name()
+		if strings.HasPrefix(cls, "log.Logger.") || strings.HasPrefix(cls, "logrus.") {
+			return
+		}
 		if ct := x.prog.Externs[cls]; ct != nil {
 			sc.contract(ct)
 			return
